@@ -99,9 +99,9 @@ def parseDump? (d : String) : Option (List Node) :=
 def runTree (dump : String) : String :=
     match parseDump? dump with
     | some doc =>
-      let evs := serDoc SerCfg.code doc
-      let ser := dhex (render SerCfg.code evs)
-      match run TbCfg.code State.init (lexAll SerCfg.code LexCfg.code evs) with
+      let evs := serDoc SerCfg.current doc
+      let ser := dhex (render SerCfg.current evs)
+      match run TbCfg.current State.init (lexAll SerCfg.current LexCfg.current evs) with
       | .ok s => "ser=" ++ ser ++ ";" ++ dumpState s
       | .error e => "ser=" ++ ser ++ ";PANIC " ++ e
     | none => "bad-case"
